@@ -1,8 +1,8 @@
 #!/bin/bash
-# usage: tools/confirm_seed.sh <Cxx>  — re-verifies the two changes an independent sub-agent left in /tmp/seed-<Cxx>/deliver
+# usage: tools/confirm_seed.sh <Cxx> [worktree-prefix=seed] [stored-letters="A B"] — re-verifies the two changes an independent sub-agent left in /tmp/<prefix>-<Cxx>/deliver
 # (applies alone to clean HEAD, existing suites pass with it, demonstration fails with and passes without it) and, when
 # confirmed, stores them as /verif/seeded/<Cxx>-<A|B>/ {patch.diff, demo.cpp, notes.md, meta.json}.
-P="$1"; WT=/tmp/seed-$P; D=$WT/deliver; HERE="$(dirname "$(readlink -f "$0")")/.."
+P="$1"; PFX="${2:-seed}"; read -r LA LB <<< "${3:-A B}"; WT=/tmp/$PFX-$P; D=$WT/deliver; HERE="$(dirname "$(readlink -f "$0")")/.."
 cd "$WT" || exit 2; git checkout -q -- . ; 
 for X in A B; do
   [ -f "$D/$X.diff" ] || { echo "$P-$X: no diff"; continue; }
@@ -14,12 +14,12 @@ for X in A B; do
   /var/tmp/seedkit/build_demo.sh "$WT" "$D/demo$X.cpp" "$WT/demo$X.ok" >/dev/null 2>&1; timeout 120 "$WT/demo$X.ok" > "$WT/demo$X.ok.out" 2>&1; rco=$?
   echo "$P-$X: tests=$tests demo_with_change_rc=$rcm demo_pristine_rc=$rco"
   if [ $tests = pass ] && [ $rcm -ne 0 ] && [ $rco -eq 0 ]; then
-    O="$HERE/seeded/$P-$X"; mkdir -p "$O"; cp "$D/$X.diff" "$O/patch.diff"; cp "$D/demo$X.cpp" "$O/demo.cpp"; cp "$D/notes.md" "$O/notes.md"
-    python3 - "$O" "$P" "$X" "$rcm" <<'PY'
+    SX=$LA; [ $X = B ] && SX=$LB; O="$HERE/seeded/$P-$SX"; mkdir -p "$O"; cp "$D/$X.diff" "$O/patch.diff"; cp "$D/demo$X.cpp" "$O/demo.cpp"; cp "$D/notes.md" "$O/notes.md"
+    python3 - "$O" "$P" "$SX" "$rcm" "$X" <<'PY'
 import json,sys
-o,p,x,rc=sys.argv[1:5]
+o,p,x,rc,orig=sys.argv[1:6]
 json.dump({"property":p,"change":x,"source":"independent sub-agent given only the property text and a scratch worktree",
- "needs_to_manifest":"see notes.md (section for change %s)"%x,
+ "needs_to_manifest":"see notes.md (section for change %s)"%orig,
  "confirmed":{"applies_to_clean_HEAD":True,"pinned_and_upstream_suites_pass_with_change":True,"demo_exit_with_change":int(rc),"demo_exit_pristine":0,
    "how":"tools/confirm_seed.sh: git apply in the agent's scratch worktree, /var/tmp/seedkit/run_tests.sh (cclCommons/cclGraph/cclLang pinned suites + upstream rslang 248 and core 446 gtests), demo built against the changed and the pristine tree"}},
  open(o+"/meta.json","w"),indent=1)
